@@ -787,6 +787,56 @@ def directed_values(cx):
             cx.failing.append(("oracle", case_of(r), v[key]))
 
 
+def cli_file_family(cx):
+    """what the command-line tool leaves on disk is an output too: single-file mode onto a fresh path and onto an
+    existing longer file, batch mode into a fresh and into a re-used directory; the bytes of every file are judged by
+    this property's oracle (for C06: the FRAME length must span exactly the rest of the *file*; for C04: nothing may
+    follow STOP)"""
+    import tempfile
+    key = cx.P["key"]
+    rc, out, err = sh(["cargo", "build", "--release", "--offline", "--bin", "pickle-fuzzer"], cwd=REPO, timeout=3000,
+                      env=dict(ENV, CARGO_TARGET_DIR=os.path.join(BUILD, "cli-target")))
+    cli = os.path.join(BUILD, "cli-target", "release", "pickle-fuzzer")
+    if rc != 0 or not os.path.exists(cli):
+        cx.corr.append(dict(stream="cli-files", count=1, first="the CLI binary could not be built: " + (err or "")[-300:]))
+        return
+    reqs = []
+    with tempfile.TemporaryDirectory(dir=BUILD) as td:
+        n = 0
+        for p_ in (0, 2, 4, 5):
+            for seed in range(1, 4 if cx.tier == "quick" else 40):
+                for pre in (False, True):
+                    f = os.path.join(td, "f%d.pkl" % n); n += 1
+                    if pre:
+                        open(f, "wb").write(b"\x80\x04" + b"N0" * 60000 + b"N.")
+                    rc, out, err = sh([cli, "--protocol", str(p_), "--seed", str(seed), f], timeout=120)
+                    if rc == 0 and os.path.exists(f):
+                        reqs.append("oracle id=%d P=%d unsafe=0 mu=0 ext=0 buf=0 min=60 max=300 mask=0 rate=3fb999999999999a warm=0 mode=rand:%d cli=%s result=ok:%s"
+                                    % (n, p_, seed, "onto-existing-file" if pre else "fresh-file", open(f, "rb").read().hex()))
+            d = os.path.join(td, "d%d" % p_)
+            for rnd in (0, 1):
+                # second round: fewer opcodes into the same directory, so every file gets shorter
+                rc, out, err = sh([cli, "--protocol", str(p_), "--seed", "9", "--dir", d, "--samples", "4"] +
+                                  (["--min-opcodes", "5", "--max-opcodes", "9"] if rnd else ["--min-opcodes", "200", "--max-opcodes", "300"]), timeout=120)
+                if rc == 0:
+                    for i in range(4):
+                        fp = os.path.join(d, "%d.pkl" % i)
+                        if os.path.exists(fp):
+                            n += 1
+                            reqs.append("oracle id=%d P=%d unsafe=0 mu=0 ext=0 buf=0 min=%d max=%d mask=0 rate=3fb999999999999a warm=0 mode=rand:9 cli=%s result=ok:%s"
+                                        % (n, p_, 5 if rnd else 200, 9 if rnd else 300, "re-used-directory" if rnd else "fresh-directory", open(fp, "rb").read().hex()))
+    if len(reqs) < 20:
+        cx.corr.append(dict(stream="cli-files", count=1, first="only %d files were written by the CLI" % len(reqs)))
+        return
+    outs = [toks(l) for l in drive("\n".join(reqs) + "\n") if l.startswith("oracle ")]
+    cx.cov["cli_files_judged"] = len(outs)
+    for r, v in zip(reqs, outs):
+        cx.cov["evaluations"] += 1
+        cx.bump("cli-file/" + toks(r).get("cli", "?"))
+        if v.get(key, "").startswith("FAIL"):
+            cx.failing.append(("cli-files", case_of(r)[:400], v[key] + "_in_the_file_the_CLI_wrote(%s)" % toks(r).get("cli")))
+
+
 def memo_boundary(cx):
     """states at the width boundary of the memo opcodes, reached directly instead of by thousands of random opcodes:
     fuzzer bytes (computed by the model's `steer`) under which the generator fills the memo with 254..257 entries
@@ -1644,6 +1694,11 @@ def check_property(prop, tier, seed):
             plan_family(cx)
         except Exception as e:
             cx.corr.append(dict(stream="plans", count=1, first="aliasing-plan family could not run: %s" % str(e)[:400]))
+    if prop in ("C06", "C04"):
+        try:
+            cli_file_family(cx)
+        except Exception as e:
+            cx.corr.append(dict(stream="cli-files", count=1, first="CLI file family could not run: %s" % str(e)[:400]))
     if prop in ("C02", "C17", "C01", "C05", "C11", "C09"):
         try:
             memo_boundary(cx)
